@@ -1,4 +1,3 @@
 package main
 
-func cmdSelftest(a []string) int { return 0 }
-func cmdReplay(a []string) int   { return 0 }
+func cmdReplay(a []string) int { return 0 }
